@@ -133,23 +133,31 @@ func (e *Engine) yamlIntrinsic(fn *ssa.Function, full string, args []Value) (Val
 			assign(out.slot, IfaceVal{typ: types.Typ[types.String], val: val})
 		case "!!null":
 			assign(out.slot, IfaceVal{})
-		case "!!bool":
-			s := e.mustStr(val, "yaml !!bool value")
-			assign(out.slot, IfaceVal{typ: types.Typ[types.Bool], val: mkBool(s == "true")})
-		case "!!int":
-			s := e.mustStr(val, "yaml !!int value")
-			n, err := strconv.ParseInt(s, 10, 64)
-			if err != nil {
-				unsupported("yaml !!int value %q", s)
+		case "!!bool", "!!int", "!!float":
+			// the real library resolves the (concrete) spelling under its tag:
+			// True/yes-style booleans, 0x/0o/0b and _-separated integers, ...
+			cs := e.mustStr(val, "yaml "+tag+" value")
+			var x any
+			rn := yaml.Node{Kind: yaml.ScalarNode, Tag: tag, Value: cs}
+			if err := rn.Decode(&x); err != nil {
+				return e.newError(mkStr("yaml: " + err.Error())), true
 			}
-			assign(out.slot, IfaceVal{typ: types.Typ[types.Int], val: mkInt(n)})
-		case "!!float":
-			s := e.mustStr(val, "yaml !!float value")
-			f, err := strconv.ParseFloat(s, 64)
-			if err != nil {
-				unsupported("yaml !!float value %q", s)
+			switch v := x.(type) {
+			case bool:
+				assign(out.slot, IfaceVal{typ: types.Typ[types.Bool], val: mkBool(v)})
+			case int:
+				assign(out.slot, IfaceVal{typ: types.Typ[types.Int], val: mkInt(int64(v))})
+			case int64:
+				assign(out.slot, IfaceVal{typ: types.Typ[types.Int64], val: mkInt(v)})
+			case float64:
+				assign(out.slot, IfaceVal{typ: types.Typ[types.Float64], val: FloatVal{v}})
+			case string:
+				assign(out.slot, IfaceVal{typ: types.Typ[types.String], val: mkStr(v)})
+			case nil:
+				assign(out.slot, IfaceVal{})
+			default:
+				unsupported("yaml %s value %q decodes to %T", tag, cs, x)
 			}
-			assign(out.slot, IfaceVal{typ: types.Typ[types.Float64], val: FloatVal{f}})
 		default:
 			unsupported("yaml.Node.Decode with tag %s", tag)
 		}
